@@ -269,3 +269,368 @@ Proof.
     + intros a k Hak. apply G2. lia.
   - intros Hz. rewrite (proj2 (nez_R_false _) Hz). reflexivity.
 Qed.
+
+(* ---------- the transposition applied by a row swap ---------- *)
+Definition tau (p j a : nat) : nat := if Nat.eqb a j then p else if Nat.eqb a p then j else a.
+Lemma tau_lt n p j a : (p < n)%nat -> (j < n)%nat -> (a < n)%nat -> (tau p j a < n)%nat.
+Proof. unfold tau. intros. bdestr; lia. Qed.
+Lemma tau_below p j a : (j <= p)%nat -> (a < j)%nat -> tau p j a = a.
+Proof. unfold tau. intros. bdestr; lia. Qed.
+Lemma tau_above p j a : (j <= p)%nat -> (j <= a)%nat -> (j <= tau p j a)%nat.
+Proof. unfold tau. intros. bdestr; lia. Qed.
+Lemma tau_invol p j a : tau p j (tau p j a) = a.
+Proof. unfold tau. destruct (Nat.eqb_spec a j), (Nat.eqb_spec a p); bdestr; lia. Qed.
+Lemma tau_j p j : tau p j j = p.
+Proof. unfold tau. rewrite Nat.eqb_refl. reflexivity. Qed.
+Lemma tau_id j a : tau j j a = a.
+Proof. unfold tau. bdestr; lia. Qed.
+Lemma swapv_tau {X} (piv : nat -> X) p j a : swapv piv p j a = piv (tau p j a).
+Proof. unfold swapv, updv, tau. bdestr; subst; try lia; reflexivity. Qed.
+
+Lemma lu_swap_spec n p c (B1 : @Mx R) piv sg :
+  exists B2 piv2 sg2,
+    (if negb (Nat.eqb p c) then mkLU (swap_rows n p c B1) (swapv piv p c) (- sg)%Z else mkLU B1 piv sg)
+    = mkLU B2 piv2 sg2 /\
+    (forall a k, (k < n)%nat -> B2 a k = B1 (tau p c a) k) /\
+    (forall a, piv2 a = piv (tau p c a)).
+Proof.
+  destruct (Nat.eqb_spec p c) as [->|Hne]; cbn [negb].
+  - exists B1, piv, sg. split; [reflexivity|]. split; intros; rewrite tau_id; reflexivity.
+  - exists (swap_rows n p c B1), (swapv piv p c), (- sg)%Z. split; [reflexivity|]. split.
+    + intros a k Hk. rewrite swap_rows_spec. rewrite (proj2 (Nat.ltb_lt k n) Hk). unfold tau.
+      bdestr; reflexivity.
+    + intros a. apply swapv_tau.
+Qed.
+
+Lemma lu_scale_props n c (B2 : @Mx R) : (c < n)%nat ->
+  (forall a, (c < a < n)%nat -> Rabs (B2 a c) <= Rabs (B2 c c)) ->
+  let B3 := lu_scale ROps n c B2 in
+  (forall a k, k <> c -> B3 a k = B2 a k) /\
+  (forall a, (a <= c)%nat -> B3 a c = B2 a c) /\
+  (forall a, (c < a < n)%nat -> B2 a c = B3 a c * B3 c c /\ Rabs (B3 a c) <= 1).
+Proof.
+  intros Hc Hmax. cbv zeta. destruct (lu_scale_spec n c B2 Hc) as [Hnz Hz].
+  destruct (Req_dec (B2 c c) 0) as [E|E].
+  - specialize (Hz E). split; [|split]; intros; rewrite ?Hz; try reflexivity.
+    assert (E0 : B2 a c = 0).
+    { specialize (Hmax a H). rewrite E, Rabs_R0 in Hmax.
+      destruct (Req_dec (B2 a c) 0) as [|Hn]; [assumption|].
+      apply Rabs_pos_lt in Hn. lra. }
+    rewrite E0. split; [lra|]. rewrite Rabs_R0. lra.
+  - destruct (Hnz E) as [G1 G2]. split; [|split].
+    + intros a k Hk. apply G2. lia.
+    + intros a Ha. apply G2. lia.
+    + intros a Ha. rewrite (G1 a Ha), (G2 c c) by lia. split; [field; exact E|].
+      specialize (Hmax a Ha). unfold Rdiv. rewrite Rabs_mult, Rabs_inv.
+      assert (Hp : 0 < Rabs (B2 c c)) by (apply Rabs_pos_lt; exact E).
+      assert (Hi : 0 < / Rabs (B2 c c)) by (apply Rinv_0_lt_compat; exact Hp).
+      assert (H1 : Rabs (B2 c c) * / Rabs (B2 c c) = 1) by (field; lra).
+      nra.
+Qed.
+
+(* ---------- the invariant of the column loop ---------- *)
+Definition lu_inv (n : nat) (A : @Mx R) (c : nat) (st : @lu_state R) : Prop :=
+  let B := lu_A st in let piv := lu_piv st in
+  (forall i k, (i < n)%nat -> (c <= k)%nat -> (k < n)%nat -> B i k = A (piv i) k) /\
+  (forall i k, (i < n)%nat -> (k < c)%nat ->
+     A (piv i) k = rsum (Nat.min i k) (fun t => B i t * B t k)
+                   + (if i <=? k then B i k else B i k * B k k)) /\
+  ((forall a, (a < n)%nat -> (piv a < n)%nat) /\
+   (forall a b, (a < n)%nat -> (b < n)%nat -> piv a = piv b -> a = b)) /\
+  (forall i k, (k < c)%nat -> (k < i < n)%nat -> Rabs (B i k) <= 1).
+
+Lemma lu_inv_init n A : lu_inv n A 0 (mkLU A (fun i => i) 1%Z).
+Proof.
+  unfold lu_inv. cbn [lu_A lu_piv]. repeat split; intros; try reflexivity; try lia; assumption.
+Qed.
+
+Lemma lu_inv_step n A c st : (c < n)%nat -> lu_inv n A c st -> lu_inv n A (S c) (lu_step ROps n n c st).
+Proof.
+  intros Hc. destruct st as [B piv sg]. unfold lu_inv at 1. cbn [lu_A lu_piv].
+  intros (HB1 & HB2 & (HB3a & HB3b) & HB4).
+  unfold lu_step. cbn [lu_A lu_piv lu_sign].
+  pose proof (lu_col_spec n c B) as HC. cbv zeta in HC.
+  destruct (lu_col ROps n c B) as [B1 col]. cbn [fst snd] in HC. destruct HC as (C1 & C2 & C3 & C4).
+  pose proof (lu_pivot_spec n c col) as HP. cbv zeta in HP.
+  set (p := lu_pivot ROps n c col) in *. destruct HP as (P1 & P2 & P3). specialize (P2 Hc).
+  destruct (lu_swap_spec n p c B1 piv sg) as (B2 & piv2 & sg2 & -> & S1 & S2).
+  cbn [lu_A lu_piv lu_sign].
+  set (q := tau p c) in *.
+  assert (Q1 : forall a, (a < n)%nat -> (q a < n)%nat) by (intros; apply tau_lt; assumption).
+  assert (Q2 : forall a, (a < c)%nat -> q a = a) by (intros; apply tau_below; assumption).
+  assert (Q3 : forall a, (c <= a)%nat -> (c <= q a)%nat) by (intros; apply tau_above; assumption).
+  assert (Q4 : forall a, q (q a) = a) by (intros; apply tau_invol).
+  assert (Q5 : q c = p) by apply tau_j.
+  clearbody q.
+  (* the new column before scaling *)
+  assert (Star : forall i, (i < n)%nat ->
+     A (piv i) c = B1 i c + rsum (Nat.min i c) (fun t => B1 i t * B1 t c)).
+  { intros i Hi. rewrite (C3 i Hi), <- (HB1 i c Hi (le_n c) Hc).
+    rewrite (rsum_ext _ (fun t => B1 i t * B1 t c) (fun t => B i t * B1 t c)).
+    - lra.
+    - intros t Ht. rewrite C2 by lia. reflexivity. }
+  assert (Hmax : forall a, (c < a < n)%nat -> Rabs (B2 a c) <= Rabs (B2 c c)).
+  { intros a Ha. rewrite !S1 by lia. rewrite Q5, <- C1, <- C1. apply P3.
+    split; [apply Q3; lia|apply Q1; lia]. }
+  destruct (lu_scale_props n c B2 Hc Hmax) as (F1 & F2 & F3).
+  set (B3 := lu_scale ROps n c B2) in *. clearbody B3.
+  (* old columns of the result *)
+  assert (Old : forall a k, (k < c)%nat -> B3 a k = B (q a) k).
+  { intros a k Hk. rewrite F1, S1, C2 by lia. reflexivity. }
+  unfold lu_inv. cbn [lu_A lu_piv]. split; [|split; [|split]].
+  - intros i k Hi Hk Hkn. rewrite F1, S1, C2, S2 by lia. apply HB1; [apply Q1; exact Hi|lia|exact Hkn].
+  - intros i k Hi Hk. rewrite S2. destruct (Nat.eq_dec k c) as [->|Hkc].
+    + rewrite (Star (q i) (Q1 i Hi)).
+      assert (Em : Nat.min (q i) c = Nat.min i c).
+      { destruct (Nat.lt_ge_cases i c) as [Hlt|Hge]; [rewrite Q2 by lia; reflexivity|].
+        specialize (Q3 i Hge). lia. }
+      rewrite Em.
+      rewrite (rsum_ext _ (fun t => B3 i t * B3 t c) (fun t => B1 (q i) t * B1 t c)).
+      2:{ intros t Ht. rewrite F1, S1 by lia. rewrite F2, S1, (Q2 t) by lia. reflexivity. }
+      rewrite <- (S1 i c Hc).
+      destruct (Nat.leb_spec i c) as [Hle|Hgt].
+      * rewrite F2 by lia. lra.
+      * destruct (F3 i ltac:(lia)) as [E _]. rewrite <- E. lra.
+    + assert (Hk' : (k < c)%nat) by lia.
+      rewrite (HB2 (q i) k (Q1 i Hi) Hk').
+      rewrite (rsum_ext _ (fun t => B3 i t * B3 t k) (fun t => B (q i) t * B t k)).
+      2:{ intros t Ht. rewrite !Old by lia. rewrite (Q2 t) by lia. reflexivity. }
+      rewrite !Old by lia. rewrite (Q2 k) by lia.
+      destruct (Nat.lt_ge_cases i c) as [Hlt|Hge]; [rewrite Q2 by lia; reflexivity|].
+      specialize (Q3 i Hge).
+      replace (Nat.min (q i) k) with (Nat.min i k) by lia.
+      destruct (Nat.leb_spec (q i) k), (Nat.leb_spec i k); try lia. reflexivity.
+  - split.
+    + intros a Ha. rewrite S2. apply HB3a, Q1, Ha.
+    + intros a b Ha Hb E. rewrite !S2 in E. apply HB3b in E; [|apply Q1; assumption..].
+      rewrite <- (Q4 a), <- (Q4 b), E. reflexivity.
+  - intros i k Hk Hi. destruct (Nat.eq_dec k c) as [->|Hkc].
+    + apply F3. exact Hi.
+    + rewrite Old by lia. apply HB4; [lia|].
+      destruct (Nat.lt_ge_cases i c) as [Hlt|Hge]; [rewrite Q2 by lia; lia|].
+      specialize (Q3 i Hge). specialize (Q1 i ltac:(lia)). lia.
+Qed.
+
+Lemma lu_cols_inv n A c : (c <= n)%nat -> lu_inv n A c (lu_cols ROps n n c A).
+Proof.
+  unfold lu_cols.
+  apply (for_up_inv (fun c st => (c <= n)%nat -> lu_inv n A c st)).
+  - intros _. apply lu_inv_init.
+  - intros c0 st Hc IH Hle. cbn [Nat.add]. apply lu_inv_step; [lia|]. apply IH. lia.
+Qed.
+
+(* ---------- (1) P A = L U ---------- *)
+Lemma NoDup_map_inj_on {X Y} (f : X -> Y) l :
+  NoDup l -> (forall a b, In a l -> In b l -> f a = f b -> a = b) -> NoDup (map f l).
+Proof.
+  induction 1 as [|x l Hx Hnd IH]; intros Hinj; cbn; constructor.
+  - intros Hin. apply in_map_iff in Hin. destruct Hin as (y & Hy & Hyl).
+    assert (y = x) by (apply Hinj; [right; exact Hyl|left; reflexivity|exact Hy]).
+    subst. contradiction.
+  - apply IH. intros a b Ha Hb. apply Hinj; right; assumption.
+Qed.
+
+Lemma perm_of_inj n (piv : nat -> nat) :
+  (forall a, (a < n)%nat -> (piv a < n)%nat) ->
+  (forall a b, (a < n)%nat -> (b < n)%nat -> piv a = piv b -> a = b) ->
+  Permutation (map piv (seq 0 n)) (seq 0 n).
+Proof.
+  intros Hr Hi. apply NoDup_Permutation_bis.
+  - apply NoDup_map_inj_on; [apply seq_NoDup|]. intros a b Ha Hb.
+    apply in_seq in Ha. apply in_seq in Hb. apply Hi; lia.
+  - rewrite map_length. apply le_n.
+  - intros x Hx. apply in_map_iff in Hx. destruct Hx as (a & <- & Ha).
+    apply in_seq in Ha. apply in_seq. specialize (Hr a). lia.
+Qed.
+
+Lemma lu_exact : forall (n : nat) (A : @Mx R),
+  let st := lu_mut ROps n n A in
+  let L := lu_L ROps (lu_A st) in let U := lu_U ROps (lu_A st) in
+  (forall i j, (i < n)%nat -> (j < n)%nat -> mmul n L U i j = A (lu_piv st i) j) /\
+  (forall i j, (i < n)%nat -> (j < n)%nat -> Rabs (L i j) <= 1) /\
+  (forall i, L i i = 1) /\ (forall i j, (i < j)%nat -> L i j = 0) /\
+  (forall i j, (j < i)%nat -> U i j = 0) /\
+  Permutation (map (lu_piv st) (seq 0 n)) (seq 0 n).
+Proof.
+  intros n A. cbv zeta. unfold lu_mut.
+  pose proof (lu_cols_inv n A n (le_n n)) as H.
+  destruct (lu_cols ROps n n n A) as [B piv sg]. unfold lu_inv in H. cbn [lu_A lu_piv] in *.
+  destruct H as (_ & H2 & (H3a & H3b) & H4).
+  split; [|split; [|split; [|split; [|split]]]].
+  - intros i j Hi Hj. unfold mmul. rewrite (H2 i j Hi Hj).
+    rewrite (rsum_trunc n (S (Nat.min i j))); [|lia|].
+    2:{ intros k Hk. unfold lu_L, lu_U. rops. bdestr; try lia; lra. }
+    rewrite rsum_S. f_equal.
+    + apply rsum_ext. intros t Ht. unfold lu_L, lu_U. bdestr; try lia. reflexivity.
+    + unfold lu_L, lu_U. rops. destruct (Nat.leb_spec i j) as [Hle|Hgt].
+      * replace (Nat.min i j) with i by lia. bdestr; try lia. lra.
+      * replace (Nat.min i j) with j by lia. bdestr; try lia. reflexivity.
+  - intros i j Hi Hj. unfold lu_L. rops.
+    destruct (Nat.ltb_spec j i); [apply H4; lia|].
+    destruct (Nat.eqb_spec i j); [rewrite Rabs_R1|rewrite Rabs_R0]; lra.
+  - intros i. unfold lu_L. rewrite Nat.ltb_irrefl, Nat.eqb_refl. reflexivity.
+  - intros i j Hij. unfold lu_L. rops. bdestr; try lia; reflexivity.
+  - intros i j Hij. unfold lu_U. rops. bdestr; try lia; reflexivity.
+  - apply perm_of_inj; assumption.
+Qed.
+
+(* ---------- (2) the permutation matrix ---------- *)
+Lemma lu_P_spec : forall n piv i j, (i < n)%nat ->
+  lu_P ROps n piv i j = (if Nat.eqb j (piv i) then 1 else 0).
+Proof.
+  intros n piv i j Hi. unfold lu_P.
+  assert (G : forall cnt a b,
+    for_up cnt 0 (fun i P => upd P i (piv i) (o1 ROps)) (zeros ROps) a b
+    = if a <? cnt then (if Nat.eqb b (piv a) then 1 else 0) else 0).
+  { intros cnt.
+    apply (for_up_inv (fun cnt (P : @Mx R) => forall a b,
+       P a b = if a <? cnt then (if Nat.eqb b (piv a) then 1 else 0) else 0)).
+    - intros a b. reflexivity.
+    - intros c P Hc IH a b. cbn [Nat.add]. rops. rewrite upd_eq, IH.
+      bdestr; subst; try lia; try reflexivity; congruence. }
+  rewrite G. rewrite (proj2 (Nat.ltb_lt i n) Hi). reflexivity.
+Qed.
+
+(* ---------- (4) solve ---------- *)
+Lemma lu_singular_false : forall n LU, lu_singular ROps n LU = false ->
+  forall k, (k < n)%nat -> LU k k <> 0.
+Proof.
+  intros n LU H k Hk E. unfold lu_singular in H.
+  assert (T : existsb (fun j => oeqb ROps (LU j j) (o0 ROps)) (seq 0 n) = true).
+  { apply existsb_exists. exists k. split; [apply in_seq; lia|]. rops. apply Reqb_true. exact E. }
+  congruence.
+Qed.
+
+Lemma lu_L_mul n (LU Y : @Mx R) i j : (i < n)%nat ->
+  rsum n (fun t => lu_L ROps LU i t * Y t j) = Y i j + rsum i (fun t => LU i t * Y t j).
+Proof.
+  intros Hi. rewrite (rsum_trunc n (S i)); [|lia|].
+  2:{ intros t Ht. unfold lu_L. rops. bdestr; try lia; lra. }
+  rewrite rsum_S. rewrite (rsum_ext i _ (fun t => LU i t * Y t j)).
+  2:{ intros t Ht. unfold lu_L. bdestr; try lia; reflexivity. }
+  unfold lu_L. rewrite Nat.ltb_irrefl, Nat.eqb_refl. rops. lra.
+Qed.
+
+Lemma lu_U_mul n (LU X : @Mx R) i j : (i < n)%nat ->
+  rsum n (fun t => lu_U ROps LU i t * X t j)
+  = LU i i * X i j + rsum (n - S i) (fun t => LU i (S i + t)%nat * X (S i + t)%nat j).
+Proof.
+  intros Hi.
+  replace (rsum n (fun t => lu_U ROps LU i t * X t j))
+    with (rsum (S i + (n - S i)) (fun t => lu_U ROps LU i t * X t j)) by (f_equal; lia).
+  rewrite rsum_app, rsum_S. rewrite (rsum_zero i).
+  2:{ intros t Ht. unfold lu_U. rops. bdestr; try lia; lra. }
+  rewrite (rsum_ext (n - S i) _ (fun t => LU i (S i + t)%nat * X (S i + t)%nat j)).
+  2:{ intros t Ht. unfold lu_U. bdestr; try lia; reflexivity. }
+  unfold lu_U. rewrite Nat.leb_refl. lra.
+Qed.
+
+Lemma lu_solve_exact : forall n bn (A b X : @Mx R), lu_solve_mut ROps n bn A b = Some X ->
+  forall i j, (i < n)%nat -> (j < bn)%nat -> rsum n (fun k => A i k * X k j) = b i j.
+Proof.
+  intros n bn A b X0 H. unfold lu_solve_mut, lu_solve in H. cbv zeta in H.
+  pose proof (lu_exact n A) as HE. cbv zeta in HE. destruct HE as (E1 & _ & _ & _ & _ & EP).
+  set (st := lu_mut ROps n n A) in *. clearbody st.
+  destruct (lu_singular ROps n (lu_A st)) eqn:Hs; [discriminate|]. injection H as <-.
+  pose proof (lu_singular_false _ _ Hs) as Hd.
+  set (LU := lu_A st) in *. set (piv := lu_piv st) in *. clearbody LU piv.
+  destruct (lu_forward_spec n bn LU (fun i j => b (piv i) j)) as [FY _].
+  set (Y := lu_forward ROps n bn LU (fun i j => b (piv i) j)) in *. clearbody Y.
+  destruct (back_subst_spec n bn LU (fun k => LU k k) Y Hd) as [BX _].
+  set (X := back_subst ROps n bn LU (fun k => LU k k) Y) in *. clearbody X. cbv beta in *.
+  assert (Row : forall i j, (i < n)%nat -> (j < bn)%nat ->
+            rsum n (fun k => A (piv i) k * X k j) = b (piv i) j).
+  { intros i j Hi Hj. rewrite <- (FY i j Hi Hj). rewrite <- (lu_L_mul n LU Y i j Hi).
+    rewrite (rsum_ext n _ (fun k => rsum n (fun t => lu_L ROps LU i t * lu_U ROps LU t k * X k j))).
+    2:{ intros k Hk. rewrite <- (E1 i k Hi Hk). unfold mmul. rewrite <- rsum_scal_r. reflexivity. }
+    rewrite (rsum_swap n n (fun k t => lu_L ROps LU i t * lu_U ROps LU t k * X k j)).
+    apply rsum_ext. intros t Ht.
+    rewrite <- (BX t j Ht Hj), <- (lu_U_mul n LU X t j Ht), <- rsum_scal.
+    apply rsum_ext. intros k Hk. ring. }
+  intros r j Hr Hj.
+  assert (Hex : exists i, (i < n)%nat /\ piv i = r).
+  { assert (Hin : In r (map piv (seq 0 n))).
+    { eapply Permutation_in; [apply Permutation_sym; exact EP|]. apply in_seq. lia. }
+    apply in_map_iff in Hin. destruct Hin as (i & Hi & Hin). exists i.
+    apply in_seq in Hin. split; [lia|exact Hi]. }
+  destruct Hex as (i & Hi & <-). apply Row; assumption.
+Qed.
+
+(* ---------- (5) inverse ---------- *)
+Lemma lu_inverse_exact : forall n (A X : @Mx R),
+  (let st := lu_mut ROps n n A in lu_inverse ROps n (lu_A st) (lu_piv st)) = Some X ->
+  forall i j, (i < n)%nat -> (j < n)%nat -> mmul n A X i j = (if Nat.eqb i j then 1 else 0).
+Proof.
+  intros n A X H i j Hi Hj.
+  assert (H' : lu_solve_mut ROps n n A (identity ROps) = Some X) by exact H.
+  unfold mmul. rewrite (lu_solve_exact n n A (identity ROps) X H' i j Hi Hj).
+  unfold identity. reflexivity.
+Qed.
+
+(* ---------- (6) a 2 x 2 instance on which the solver succeeds (rows are swapped: |3| > |1|) ---------- *)
+Lemma lu_singular_true : forall n LU, lu_singular ROps n LU = true ->
+  exists k, (k < n)%nat /\ LU k k = 0.
+Proof.
+  intros n LU H. unfold lu_singular in H. apply existsb_exists in H. destruct H as (k & Hk & E).
+  apply in_seq in Hk. rops. apply Reqb_true in E. exists k. split; [lia|exact E].
+Qed.
+
+Example lu_example : exists X,
+  lu_solve_mut ROps 2 1
+    (fun i j => match i, j with 0%nat, 0%nat => 1 | 0%nat, _ => 2 | _, 0%nat => 3 | _, _ => 4 end)
+    (fun i _ => match i with 0%nat => 5 | _ => 6 end) = Some X.
+Proof.
+  match goal with |- exists X, lu_solve_mut ROps 2 1 ?A ?b = Some X => set (A0 := A); set (b0 := b) end.
+  unfold lu_solve_mut, lu_solve. cbv zeta.
+  destruct (lu_singular ROps 2 (lu_A (lu_mut ROps 2 2 A0))) eqn:E; [exfalso|eexists; reflexivity].
+  apply lu_singular_true in E. destruct E as (k & Hk & E).
+  pose proof (lu_exact 2 A0) as HE. cbv zeta in HE. destruct HE as (E1 & _ & _ & _ & _ & EP).
+  set (st := lu_mut ROps 2 2 A0) in *. clearbody st.
+  set (B := lu_A st) in *. set (piv := lu_piv st) in *. clearbody B piv.
+  pose proof (E1 0 0 ltac:(lia) ltac:(lia))%nat as E00.
+  pose proof (E1 0 1 ltac:(lia) ltac:(lia))%nat as E01.
+  pose proof (E1 1 0 ltac:(lia) ltac:(lia))%nat as E10.
+  pose proof (E1 1 1 ltac:(lia) ltac:(lia))%nat as E11.
+  clear E1.
+  unfold mmul, rsum, lu_L, lu_U in E00, E01, E10, E11.
+  cbn [osumn Nat.ltb Nat.leb Nat.eqb] in E00, E01, E10, E11. rops.
+  cbn [map seq] in EP. apply Permutation_length_2 in EP.
+  assert (Hk' : k = 0%nat \/ k = 1%nat) by lia.
+  destruct EP as [[P0 P1]|[P0 P1]]; rewrite P0, P1 in *; unfold A0 in *;
+    destruct Hk' as [-> | ->]; nra.
+Qed.
+
+(* on that instance the rows are swapped, and the solution is (-4, 9/2) *)
+Example lu_example_swap :
+  lu_piv (lu_mut ROps 2 2
+    (fun i j => match i, j with 0%nat, 0%nat => 1 | 0%nat, _ => 2 | _, 0%nat => 3 | _, _ => 4 end)) 0%nat
+  = 1%nat.
+Proof.
+  match goal with |- lu_piv (lu_mut ROps 2 2 ?A) _ = _ => set (A0 := A) end.
+  pose proof (lu_exact 2 A0) as HE. cbv zeta in HE. destruct HE as (E1 & E2 & _ & _ & _ & EP).
+  set (st := lu_mut ROps 2 2 A0) in *. clearbody st.
+  set (B := lu_A st) in *. set (piv := lu_piv st) in *. clearbody B piv.
+  pose proof (E1 0 0 ltac:(lia) ltac:(lia))%nat as E00.
+  pose proof (E1 1 0 ltac:(lia) ltac:(lia))%nat as E10.
+  pose proof (E2 1 0 ltac:(lia) ltac:(lia))%nat as A10.
+  clear E1 E2.
+  unfold mmul, rsum, lu_L, lu_U in E00, E10, A10.
+  cbn [osumn Nat.ltb Nat.leb Nat.eqb] in E00, E10, A10. rops.
+  cbn [map seq] in EP. apply Permutation_length_2 in EP.
+  destruct EP as [[P0 P1]|[P0 P1]]; [exfalso|exact P0].
+  rewrite P0, P1 in *. unfold A0 in *.
+  assert (E : B 1%nat 0%nat = 3) by nra. rewrite E in A10.
+  rewrite Rabs_pos_eq in A10; lra.
+Qed.
+
+Example lu_example_value : forall X,
+  lu_solve_mut ROps 2 1
+    (fun i j => match i, j with 0%nat, 0%nat => 1 | 0%nat, _ => 2 | _, 0%nat => 3 | _, _ => 4 end)
+    (fun i _ => match i with 0%nat => 5 | _ => 6 end) = Some X ->
+  X 0%nat 0%nat = -4 /\ X 1%nat 0%nat = 9 / 2.
+Proof.
+  intros X H.
+  pose proof (lu_solve_exact _ _ _ _ _ H 0 0 ltac:(lia) ltac:(lia))%nat as H0.
+  pose proof (lu_solve_exact _ _ _ _ _ H 1 0 ltac:(lia) ltac:(lia))%nat as H1.
+  unfold rsum in H0, H1. cbn [osumn] in H0, H1. rops. split; lra.
+Qed.
